@@ -13,7 +13,7 @@
 (***************************************************************************)
 EXTENDS Mappings
 
-INF == 1000000
+INF == 1073741823      \* greater than every logged column (numbers >= 2^30 are never logged)
 OKey(t) == <<Dl(t), Dc(t)>>            \* an original token lives at its generated position
 AKey(t) == <<Sl(t), Sc(t)>>            \* an adjustment token is looked up by its ORIGINAL position
 Disp(a) == <<Dl(a) - Sl(a), Dc(a) - Sc(a)>>
